@@ -172,6 +172,7 @@ Proof.
 Qed.
 
 (* ------------------------------------------------------------------ layer 4: reference counts *)
+Ltac case_pq p q := destruct (Nat.eqb_spec p q) as [?Epq|?N]; [subst q|].
 Definition isp (p : nat) (x : option nat) : bool := match x with Some y => Nat.eqb y p | None => false end.
 Definition nq (q : list (option nat)) (p : nat) : nat := length (filter (isp p) q).
 Fixpoint ce (l : list nat) (p : nat) : nat := match l with [] => 0 | x :: t => b2n (Nat.eqb x p) + ce t p end.
@@ -231,11 +232,11 @@ Proof.
   assert (Z0 : nq (rs_q r) p + ce extra p = 0).
   { destruct (Nat.eq_dec (nq (rs_q r) p + ce extra p) 0); auto. exfalso. apply Np. apply B. lia. }
   unfold RI. cbn [set_cnt set_a rs_a rs_q]. rewrite O1. split; [auto|]. split; [|split].
-  - intros q Hq. rewrite rcnt_set. cbn [ce]. destruct (Nat.eqb_spec p q) as [<-|N]; cbn [b2n]; [lia|].
+  - intros q Hq. rewrite rcnt_set. cbn [ce]. case_pq p q; cbn [b2n]; [lia|].
     destruct Hq as [->|Hq]; [congruence|]. apply A; auto.
-  - intros q. cbn [ce]. destruct (Nat.eqb_spec p q) as [<-|N]; cbn [b2n In]; [split; [lia|auto]|].
+  - intros q. cbn [ce]. case_pq p q; cbn [b2n In]; [split; [lia|auto]|].
     rewrite <- B. split; [intros [D|D]; [congruence|auto]|auto].
-  - intros q Hq. rewrite rcnt_set. destruct (Nat.eqb_spec p q) as [<-|N]; [exfalso; apply Hq; cbn; auto|].
+  - intros q Hq. rewrite rcnt_set. case_pq p q; [exfalso; apply Hq; cbn; auto|].
     apply C. intros D. apply Hq. cbn; auto.
 Qed.
 
@@ -247,30 +248,30 @@ Proof.
   destruct (Z.eqb_spec (rcnt r p - 1) 0) as [Z0|NZ].
   - destruct (desallocate_spec (rs_a r) p P Hp) as (P1 & O1 & Np & _).
     unfold RI. cbn [set_a set_cnt rs_a rs_q]. rewrite O1. split; [auto|]. split; [|split].
-    + intros q Hq. rewrite rcnt_set_a, rcnt_set. destruct (Nat.eqb_spec p q) as [<-|N].
+    + intros q Hq. rewrite rcnt_set_a, rcnt_set. case_pq p q.
       * exfalso. apply (proj2 (remove1_nodup p _ (proj1 P))). auto.
       * pose proof (A q (remove1_in _ _ _ Hq)) as Aq. cbn [ce] in Aq. destruct (Nat.eqb_spec p q); [congruence|]. cbn in Aq. auto.
-    + intros q. destruct (Nat.eq_dec p q) as [<-|N].
+    + intros q. destruct (Nat.eq_dec p q) as [?Epq|?N]; [subst q|].
       * split; [intros D; exfalso; apply (proj2 (remove1_nodup p _ (proj1 P))); auto|lia].
       * specialize (B q). cbn [ce] in B. destruct (Nat.eqb_spec p q); [congruence|]. cbn in B.
         rewrite <- B. split; [apply remove1_in|intros D; apply remove1_keep; auto].
-    + intros q Hq. rewrite rcnt_set_a, rcnt_set. destruct (Nat.eqb_spec p q) as [<-|N]; [auto|].
+    + intros q Hq. rewrite rcnt_set_a, rcnt_set. case_pq p q; [auto|].
       apply C. intros D. apply Hq. apply remove1_keep; auto.
   - unfold RI. cbn [set_cnt rs_a rs_q]. split; [auto|]. split; [|split].
-    + intros q Hq. rewrite rcnt_set. destruct (Nat.eqb_spec p q) as [<-|N]; [lia|].
+    + intros q Hq. rewrite rcnt_set. case_pq p q; [lia|].
       pose proof (A q Hq) as Aq. cbn [ce] in Aq. destruct (Nat.eqb_spec p q); [congruence|]. cbn in Aq. auto.
-    + intros q. specialize (B q). cbn [ce] in B. destruct (Nat.eqb_spec p q) as [<-|N]; cbn [b2n] in B.
+    + intros q. specialize (B q). cbn [ce] in B. case_pq p q; cbn [b2n] in B.
       * split; [intros _; lia|auto].
       * cbn in B. auto.
-    + intros q Hq. rewrite rcnt_set. destruct (Nat.eqb_spec p q) as [<-|N]; [tauto|auto].
+    + intros q Hq. rewrite rcnt_set. case_pq p q; [tauto|auto].
 Qed.
 
 Lemma RI_incr r extra p : RI r extra -> In p (a_out (rs_a r)) -> RI (set_cnt r p (rcnt r p + 1)) (p :: extra).
 Proof.
   intros (P & A & B & C) Hp. unfold RI. cbn [set_cnt rs_a rs_q]. split; [auto|]. split; [|split].
-  - intros q Hq. rewrite rcnt_set. cbn [ce]. destruct (Nat.eqb_spec p q) as [<-|N]; cbn [b2n]; [rewrite (A p Hp); lia|apply A; auto].
-  - intros q. cbn [ce]. destruct (Nat.eqb_spec p q) as [<-|N]; cbn [b2n]; [split; [lia|auto]|apply B].
-  - intros q Hq. rewrite rcnt_set. destruct (Nat.eqb_spec p q) as [<-|N]; [tauto|auto].
+  - intros q Hq. rewrite rcnt_set. cbn [ce]. case_pq p q; cbn [b2n]; [rewrite (A p Hp); lia|apply A; auto].
+  - intros q. cbn [ce]. case_pq p q; cbn [b2n]; [split; [lia|auto]|apply B].
+  - intros q Hq. rewrite rcnt_set. case_pq p q; [tauto|auto].
 Qed.
 
 (* a reference moves from a local to nothing without reaching 0 (shared block) *)
@@ -292,6 +293,8 @@ Lemma getq_setq r i v : i < length (rs_q r) -> getq (setq r i v) i = v.
 Proof. intros. unfold getq, setq; cbn. apply nth_upd_eq; auto. Qed.
 Lemma len_setq r i v : length (rs_q (setq r i v)) = length (rs_q r).
 Proof. unfold setq; cbn. apply upd_length. Qed.
+Lemma rsq_desalloc r op : rs_q (rc_desallocate r op) = rs_q r.
+Proof. destruct op; cbn [rc_desallocate]; auto. destruct (rcnt r n - 1 =? 0)%Z; reflexivity. Qed.
 Lemma len_desalloc r op : length (rs_q (rc_desallocate r op)) = length (rs_q r).
 Proof. destruct op; cbn [rc_desallocate]; auto. destruct (rcnt r n - 1 =? 0)%Z; reflexivity. Qed.
 
@@ -306,3 +309,177 @@ Lemma RI_put r i t extra : RI r (t :: extra) -> i < length (rs_q r) -> getq r i 
 Proof. intros I Hi E. apply RI_setq with (extra := t :: extra); auto. intros p. rewrite E. cbn. lia. Qed.
 Lemma RI_drop_opt r od : RI r (match od with Some d => [d] | None => [] end) -> RI (rc_desallocate r od) [].
 Proof. destruct od; [apply RI_desalloc|auto]. Qed.
+
+Lemma RI_take_g r i extra : RI r extra -> i < length (rs_q r) ->
+  RI (setq r i None) (match getq r i with Some d => d :: extra | None => extra end).
+Proof.
+  intros I Hi. apply RI_setq with (extra := extra); auto. intros p. destruct (getq r i) as [d|]; cbn; lia.
+Qed.
+
+(* q[i] gives up its reference and receives the local reference t *)
+Lemma RI_replace r i t : RI r [t] -> i < length (rs_q r) -> RI (setq (rc_desallocate r (getq r i)) i (Some t)) [].
+Proof.
+  intros I Hi. pose proof (RI_take_g r i [t] I Hi) as I1.
+  assert (E : setq (rc_desallocate r (getq r i)) i (Some t) = setq (rc_desallocate (setq r i None) (getq r i)) i (Some t))
+    by (rewrite desalloc_setq, setq_setq; auto).
+  rewrite E. apply RI_put.
+  - destruct (getq r i) as [d|]; [apply RI_desalloc; auto|exact I1].
+  - rewrite len_desalloc, len_setq; auto.
+  - rewrite desalloc_setq, getq_setq; auto. rewrite len_desalloc; auto.
+Qed.
+Lemma RI_clear r i : RInv r -> i < length (rs_q r) -> RInv (setq (rc_desallocate r (getq r i)) i None).
+Proof.
+  intros I Hi. pose proof (RI_take_g r i [] I Hi) as I1.
+  assert (E : setq (rc_desallocate r (getq r i)) i None = rc_desallocate (setq r i None) (getq r i))
+    by (rewrite desalloc_setq; auto).
+  unfold RInv. rewrite E. destruct (getq r i) as [d|]; [apply RI_desalloc; auto|exact I1].
+Qed.
+
+Lemma rc_allocate_spec tab r s extra r1 op d : RI r extra -> rc_allocate tab r s = (r1, op, d) ->
+  match op with Some p => RI r1 (p :: extra) /\ rs_q r1 = rs_q r | None => r1 = r end.
+Proof.
+  intros I. unfold rc_allocate.
+  destruct ((s + 8 <=? 32)%Z && negb match tabfree (rs_a r) (Z.to_nat (s + 8 - 1)) with [] => true | _ :: _ => false end).
+  - destruct (pop_or_malloc (rs_a r) (Z.to_nat (s + 8 - 1))) as [a1 p] eqn:E. intros H; injection H as <- <- _.
+    split; [eapply RI_alloc; eauto|reflexivity].
+  - destruct (_allocate tab (rs_a r) (s + 8)%Z) as [[a1 [p|]] d'] eqn:E; intros H; injection H as <- <- _; auto.
+    destruct (allocate_pop _ _ _ _ _ _ E) as [idx E']. split; [eapply RI_alloc; eauto|reflexivity].
+Qed.
+
+Definition rop_target (o : rop) : nat :=
+  match o with QNew i _ | QAssign i _ | QAssignNull i | QFree i | QResize i _ _ | QProbe i => i end.
+
+Lemma assign_spec r i src : RInv r -> i < length (rs_q r) ->
+  (match src with Some s => exists j, getq r j = Some s | None => True end) ->
+  RInv (rc_assign r i src) /\ length (rs_q (rc_assign r i src)) = length (rs_q r).
+Proof.
+  intros I Hi Hs. unfold rc_assign. destruct (option_nat_eqb src (getq r i)) eqn:Q; [auto|].
+  assert (R1 : match getq r i with Some _ => rc_desallocate r (getq r i) | None => r end = rc_desallocate r (getq r i))
+    by (destruct (getq r i); reflexivity).
+  rewrite R1. destruct src as [s|].
+  - destruct Hs as [j Hj].
+    assert (Nij : j <> i) by (intros ->; rewrite Hj in Q; cbn in Q; rewrite Nat.eqb_refl in Q; discriminate).
+    assert (Hjl : j < length (rs_q r)).
+    { destruct (Nat.lt_ge_cases j (length (rs_q r))); auto. unfold getq in Hj. rewrite nth_overflow in Hj by auto. discriminate. }
+    pose proof (RI_clear r i I Hi) as I1.
+    set (r1 := setq (rc_desallocate r (getq r i)) i None) in *.
+    assert (Ls : In s (a_out (rs_a r1))).
+    { destruct I1 as (_ & _ & B & _). apply B. cbn [ce]. rewrite Nat.add_0_r.
+      apply (nq_nth _ j); [unfold r1; rewrite len_setq, len_desalloc; auto|].
+      unfold r1, setq; cbn [rs_q]. rewrite nth_upd_neq by auto.
+      rewrite rsq_desalloc. exact Hj. }
+    pose proof (RI_incr r1 [] s I1 Ls) as I2.
+    assert (E : setq (set_cnt (rc_desallocate r (getq r i)) s (rcnt (rc_desallocate r (getq r i)) s + 1)) i (Some s)
+                = setq (set_cnt r1 s (rcnt r1 s + 1)) i (Some s)).
+    { unfold r1. change (rcnt (setq ?X i None) s) with (rcnt X s).
+      change (set_cnt (setq ?X i None) s ?v) with (setq (set_cnt X s v) i None). rewrite setq_setq. reflexivity. }
+    rewrite E. split.
+    + apply RI_put; auto.
+      * cbn [set_cnt rs_q]. unfold r1. rewrite len_setq, len_desalloc; auto.
+      * change (getq (set_cnt r1 s (rcnt r1 s + 1)) i) with (getq r1 i). unfold r1. apply getq_setq. rewrite len_desalloc; auto.
+    + rewrite len_setq. cbn [set_cnt rs_q]. unfold r1. rewrite len_setq, len_desalloc; auto.
+  - split; [apply RI_clear; auto|rewrite len_setq, len_desalloc; auto].
+Qed.
+
+Lemma probe_spec r p : RInv r -> RInv (set_cnt (set_cnt r p (rcnt r p + 1)) p (rcnt (set_cnt r p (rcnt r p + 1)) p - 1)).
+Proof.
+  intros (P & A & B & C). unfold RInv, RI. cbn [set_cnt rs_a rs_q]. split; [auto|]. split; [|split; [exact B|]].
+  - intros q Hq. rewrite !rcnt_set, Nat.eqb_refl. case_pq p q; [rewrite <- (A p Hq); lia|apply A; auto].
+  - intros q Hq. rewrite !rcnt_set, Nat.eqb_refl. case_pq p q; [rewrite (C p Hq); lia|apply C; auto].
+Qed.
+
+Lemma resize_spec tab r i old new r1 op d : RInv r -> i < length (rs_q r) ->
+  rc_resize tab r (getq r i) old new = (r1, op, d) ->
+  RInv (setq r1 i op) /\ length (rs_q (setq r1 i op)) = length (rs_q r).
+Proof.
+  intros I Hi. unfold rc_resize. destruct (getq r i) as [p|] eqn:Eq.
+  - (* both moving branches are fresh (rc_desallocate r (Some p)) *)
+    assert (F : forall r0, r0 = rc_desallocate r (Some p) ->
+       match _allocate tab (rs_a r0) (new + 8)%Z with
+       | (a1, Some t, d0) => (set_cnt (set_a r0 a1) t 1%Z, Some t, d0)
+       | (_, None, d0) => (r, Some p, d0)
+       end = (r1, op, d) -> RInv (setq r1 i op) /\ length (rs_q (setq r1 i op)) = length (rs_q r)).
+    { intros r0 E0. destruct (_allocate tab (rs_a r0) (new + 8)%Z) as [[a1 [t|]] d0] eqn:EA; intros H; injection H as <- <- _.
+      - destruct (allocate_pop _ _ _ _ _ _ EA) as [idx EP].
+        pose proof (RI_take_g r i [] I Hi) as I1. rewrite Eq in I1.
+        pose proof (RI_desalloc _ _ _ I1) as I2. rewrite desalloc_setq in I2. rewrite <- E0 in I2.
+        assert (EP' : pop_or_malloc (rs_a (setq r0 i None)) idx = (a1, t)) by exact EP.
+        pose proof (RI_alloc _ _ _ _ _ EP' I2) as I3.
+        change (set_cnt (set_a (setq r0 i None) a1) t 1%Z) with (setq (set_cnt (set_a r0 a1) t 1%Z) i None) in I3.
+        assert (L0 : length (rs_q r0) = length (rs_q r)) by (subst r0; apply len_desalloc).
+        split.
+        + rewrite <- (setq_setq _ i None (Some t)). apply RI_put; auto.
+          * rewrite len_setq. cbn [set_cnt set_a rs_q]. lia.
+          * apply getq_setq. cbn [set_cnt set_a rs_q]. lia.
+        + rewrite len_setq. cbn [set_cnt set_a rs_q]. lia.
+      - rewrite <- Eq, setq_same. auto. }
+    destruct (Z.eqb_spec (rcnt r p) 1) as [E1|NE1].
+    + destruct (new <=? old)%Z; [intros H; injection H as <- <- _; rewrite <- Eq, setq_same; auto|].
+      destruct (8 + new <=? nth (cls (rs_a r) p) tab 0%Z)%Z; [intros H; injection H as <- <- _; rewrite <- Eq, setq_same; auto|].
+      apply F; auto.
+    + rewrite <- (desalloc_shared r p NE1). apply F; auto.
+  - intros H. pose proof (rc_allocate_spec tab r new [] r1 op d I H) as S. destruct op as [t|].
+    + destruct S as [I1 Eq1]. split; [apply RI_put; auto|rewrite len_setq]; try congruence.
+      unfold getq. rewrite Eq1. exact Eq.
+    + subst r1. rewrite <- Eq, setq_same. auto.
+Qed.
+
+Lemma rstep_spec tab r o : RInv r -> rop_target o < length (rs_q r) ->
+  RInv (fst (rstep tab r o)) /\ length (rs_q (fst (rstep tab r o))) = length (rs_q r).
+Proof.
+  intros I Hi. destruct o; cbn [rop_target rstep] in *.
+  - destruct (rc_allocate tab r s) as [[r1 [p|]] d] eqn:E; cbn [fst]; auto.
+    destruct (rc_allocate_spec tab r s [] r1 (Some p) d I E) as [I1 Eq1].
+    split; [apply RI_replace; auto; congruence|rewrite len_setq, len_desalloc; congruence].
+  - cbn [fst]. apply assign_spec; auto. destruct (getq r j) eqn:E; eauto.
+  - cbn [fst]. apply assign_spec; auto.
+  - cbn [fst]. split; [apply RI_clear; auto|rewrite len_setq, len_desalloc; auto].
+  - destruct (rc_resize tab r (getq r i) old new) as [[r1 op] d] eqn:E. cbn [fst]. eapply resize_spec; eauto.
+  - unfold rc_incrc, rc_decrc, rc_getrc. destruct (getq r i) as [p|]; cbn [fst]; auto.
+    split; [apply probe_spec; auto|reflexivity].
+Qed.
+
+Lemma RInv_init nq0 : RInv (rinit nq0) /\ length (rs_q (rinit nq0)) = nq0.
+Proof.
+  split; [|cbn; apply repeat_length]. unfold RInv, RI. cbn [rinit rs_a rs_q a_out ainit]. split; [apply PInv_init|].
+  assert (Z0 : forall p, nq (repeat None nq0) p = 0).
+  { intros p. unfold nq. induction nq0; cbn; auto. }
+  split; [intros ? []|]. split; [|reflexivity]. intros p. rewrite Z0. cbn. split; [tauto|lia].
+Qed.
+
+Definition RC_step_stmt := forall tab r o, RInv r -> rop_target o < length (rs_q r) ->
+  RInv (fst (rstep tab r o)) /\ length (rs_q (fst (rstep tab r o))) = length (rs_q r).
+Definition RC_run_stmt := forall tab n ops, Forall (fun o => rop_target o < n) ops -> RInv (rrun tab (rinit n) ops).
+(* after any sequence: the count of the block a variable points to = number of variables pointing to it; a block
+   is on a free list iff its count is 0, never both handed out and on a list; no block twice on a list *)
+Definition RC_counts_stmt := forall tab n ops, Forall (fun o => rop_target o < n) ops ->
+  let r := rrun tab (rinit n) ops in
+  (forall i p, getq r i = Some p -> rcnt r p = Z.of_nat (nq (rs_q r) p) /\ (forall idx, ~ In p (tabfree (rs_a r) idx)))
+  /\ (forall p, p < a_next (rs_a r) -> (rcnt r p = 0%Z <-> In p (tabfree (rs_a r) (cls (rs_a r) p))))
+  /\ (forall idx, NoDup (tabfree (rs_a r) idx)).
+
+Lemma RC_step_proof : RC_step_stmt.
+Proof. exact rstep_spec. Qed.
+Lemma rrun_inv tab n ops r : RInv r -> length (rs_q r) = n -> Forall (fun o => rop_target o < n) ops ->
+  RInv (rrun tab r ops) /\ length (rs_q (rrun tab r ops)) = n.
+Proof.
+  intros I L F; revert r I L. induction F as [|o ops Ho F IH]; intros r I L; cbn; auto.
+  destruct (rstep_spec tab r o I ltac:(lia)) as [I1 L1]. apply IH; auto. lia.
+Qed.
+Lemma RC_run_proof : RC_run_stmt.
+Proof. intros tab n ops F. destruct (RInv_init n) as [I L]. apply (rrun_inv tab n ops _ I L F). Qed.
+Lemma RC_counts_proof : RC_counts_stmt.
+Proof.
+  intros tab n ops F r. destruct (RInv_init n) as [I0 L0].
+  destruct (rrun_inv tab n ops _ I0 L0 F) as [(P & A & B & C) L]. fold r in P, A, B, C, L.
+  split; [|split].
+  - intros i p E.
+    assert (Hi : i < length (rs_q r)).
+    { destruct (Nat.lt_ge_cases i (length (rs_q r))); auto. unfold getq in E. rewrite nth_overflow in E by auto. discriminate. }
+    assert (O : In p (a_out (rs_a r))) by (apply B; pose proof (nq_nth _ _ _ Hi E); lia).
+    split; [rewrite (A p O); f_equal; cbn; lia|]. intros idx. apply PInv_out_not_free; auto.
+  - intros p Hp. destruct P as (P1 & P2 & P3 & P4 & P5). split.
+    + intros Z0. destruct (P5 p Hp) as [O|Fr]; auto. pose proof (A p O) as Ap. apply B in O. lia.
+    + intros Fr. apply C. apply P3 in Fr. tauto.
+  - destruct P as (_ & P2 & _). exact P2.
+Qed.
